@@ -95,8 +95,13 @@ def solve_one(smt2: str, watch: Dict[str, str], timeout_s: float, strings: bool 
     return result
 
 
+def _solve_job(j):
+    if j.get("pre_verdict"):
+        return {"verdict": j["pre_verdict"], "backend": "pyvc (goal is literally true on this path)", "time_s": 0.0, "model": {}, "log": []}
+    return solve_one(j["smt2"], j.get("watch", {}), j.get("timeout_s", 20), j.get("strings", False), j.get("only", ""))
+
+
 def solve_all(jobs: List[dict], workers: int = 16) -> List[dict]:
     """jobs: [{'smt2':..., 'watch':{}, 'timeout_s':..., 'strings':bool}]"""
     with ThreadPoolExecutor(max_workers=workers) as ex:
-        futs = [ex.submit(solve_one, j["smt2"], j.get("watch", {}), j.get("timeout_s", 20), j.get("strings", False), j.get("only", "")) for j in jobs]
-        return [f.result() for f in futs]
+        return list(ex.map(_solve_job, jobs))
